@@ -292,6 +292,11 @@ def check_builders(chk, rep, repo):
         okv = full and e.value == ("call", ("attr", ("self",), "distance_fn"),
                                     (("attr", nli[2], "features"), ("attr", nlj[2], "features")), ())
         D = e.target[1][1]
+        nn = ("attr", G, "n_nodes")
+        okshape = bool(D[2]) and D[2][0][0] == "tuple" and len(D[2][0][1]) == 2 and all(
+            t in (nn, ("call", ("builtin", "len"), (("attr", G, "nodes"),), ())) for t in D[2][0][1])
+        rep.fn("BUILD-shape", fi, "the matrix has one row and one column per training node", okshape,
+               f"the matrix is allocated as '{show(D)[:80]}'")
         okdt = not D[3] or dict(D[3]) in ({"dtype": ("builtin", "float")}, {"dtype": ("mod", "numpy.float64")})
         ok = full and okv and e.target[1][2] == i and e.target[2] == j and not e.guards and okdt
         rets = [r for r in w.events if r.kind == "return" and r.fn is w.entry]
